@@ -20,3 +20,9 @@ mod light_self_emulation;
 
 #[cfg(not(feature = "truncated-challenges"))]
 pub mod light_aggregator;
+
+// Verification hook (off by default): the light aggregator only accepts inner
+// proofs whose Fiat-Shamir transcript uses this hash, which lives in a private
+// module; an external harness needs the type to produce such inner proofs.
+#[cfg(all(midnight_zk_verif, not(feature = "truncated-challenges")))]
+pub use light_fiat_shamir::LightPoseidonFS;
